@@ -37,6 +37,7 @@ import (
 	"time"
 
 	"github.com/prometheus/client_golang/prometheus"
+	"github.com/scionproto/scion/pkg/daemon"
 	"github.com/scionproto/scion/pkg/slayers"
 	"github.com/scionproto/scion/pkg/slayers/path"
 
@@ -93,6 +94,14 @@ type rec struct {
 	RMacOK    bool   `json:"rmacok"`    // MAC verifies
 	Cli       string `json:"cli"`       // "verified" | "unauth" | "reject" | "other" | "-"
 	CliErr    string `json:"clierr"`
+	// key-regime sequences (k = "key"): position, what the DRKey daemon saw, and what
+	// ScionAuth.tla's behaviour says for this step
+	Seq     int    `json:"seq"`
+	Step    int    `json:"step"`
+	Fetches int    `json:"fetches"` // host-AS key requests that reached the daemon because of this datagram
+	WFetch  bool   `json:"wfetch"`
+	WExp    bool   `json:"wexp"`
+	WAct    string `json:"wact"`
 }
 
 type rx struct {
@@ -159,6 +168,7 @@ func (s *shared) take(tag string) []rx {
 
 type harness struct {
 	w     world
+	dc    daemon.Connector // the client's DRKey source (nil: mock keys)
 	dEh   *shared
 	dSrv  *shared
 	seq   atomic.Uint64
